@@ -127,6 +127,9 @@ Perms(n) == {f \in [1..n -> 1..n] : \A i, j \in 1..n : i # j => f[i] # f[j]}
 (* rel = relative deviation x 10^12 (clamped at 2*10^9), dd = |delta difference| x 10^6,  *)
 (* dq = delta x 10^6.                                                                     *)
 
+(* object histories every fixed-delta law case is run with *)
+ObjectHistories == {"free_then_fix", "refix", "assign_delta", "deepcopy"}
+
 (* closed-form regression in double precision: condition of the 2x2 normal equations     *)
 (* <= 1e4 on the sampled classes, so 1e-8 relative on (alpha, beta) and on the           *)
 (* normalised gradient is > 100x above the round-off and > 1000x below the effect of an  *)
